@@ -695,7 +695,19 @@ package lang
 // A returned value is the returned cell's value, detached from the place it was read from (C09).
 //@ spec func sameValueDetached(a Value, b Value) bool = a.Tag == b.Tag && a.Str == b.Str && a.Num == b.Num && a.Bool == b.Bool && a.Array == b.Array && a.Obj == b.Obj && a.NativeFn == b.NativeFn && a.Fn == b.Fn && a.Proto == b.Proto && a.Binding == b.Binding && a.ParentObj == nil
 //@ ghost $callTok Token
-//@ func ExprCall.Token [C12]
+// C01/C20: the position of a chain a+b+c+... or a.b().c()... is found by a loop down its left spine, not by
+// recursion (a chain is as deep as it is long and the parser builds it iteratively, so no depth limit bounds it);
+// the structural obligation recursion-is-depth-counted-or-bounded keeps it that way.
+//@ func leftmostToken [C01,C12,C20]
+//@   requires expr != nil
+//@   ensures tokOKT(result)
+//@   pure
+//@   loop 0 invariant[C01] descending-the-left-spine: expr != nil
+//@ func ExprBinary.Token [C01,C12,C20]
+//@   requires expr != nil
+//@   ensures tokOKT(result)
+//@   pure
+//@ func ExprCall.Token [C01,C12,C20]
 //@   requires expr != nil
 //@   ensures tokOKT(result)
 //@   pure
